@@ -109,6 +109,22 @@ func runSolver(ctx context.Context, s solverSpec, file string, timeoutSec, n int
 // solveScript races the solvers on one script with n check-sats. If all is
 // set, every solver runs to completion and definitive answers must agree.
 func solveScript(dir, name, script string, n, timeoutSec int, all bool) solveResult {
+	if !all {
+		// stage 1: one solver with a short limit decides the (many) easy queries
+		// with a third of the processes; stage 2 races all solvers on the rest
+		t := timeoutSec
+		if t > 3 {
+			t = 3
+		}
+		start := time.Now()
+		r := solveScriptWith(allSolvers[1:2], dir, name, script, n, t, false)
+		if definitive(r.Verdicts) {
+			return r
+		}
+		r2 := solveScriptWith(solvers, dir, name, script, n, timeoutSec, false)
+		r2.Ms = time.Since(start).Milliseconds()
+		return r2
+	}
 	return solveScriptWith(solvers, dir, name, script, n, timeoutSec, all)
 }
 
